@@ -297,6 +297,9 @@ pub(crate) mod spin;
 
 pub mod callsite;
 pub mod collect;
+#[cfg(all(tokio_rs_tracing_verif, feature = "std"))]
+#[doc(hidden)]
+pub mod verif;
 pub mod dispatch;
 pub mod event;
 pub mod field;
